@@ -91,6 +91,7 @@ class ZS:
         self.enum_by_sort = {}
         self.union_by_sort = {}
         self.recs = {}
+        self.obj_ids = {}
         self.rec_by_sort = {}
 
     # ------------------------------------------------------------ sorts
@@ -195,6 +196,12 @@ class ZS:
             return v.term
         if isinstance(v, VBox) and v.kind in ('list', 'deque') and v.term.sort() == zsort:
             return v.term
+        if isinstance(v, VStruct) and self.obj is not None and zsort == self.obj:
+            # an object stored where only its identity matters
+            k = id(v)
+            if k not in self.obj_ids:
+                self.obj_ids[k] = (z3.Const(f'objid!{len(self.obj_ids)}', self.obj), v)
+            return self.obj_ids[k][0]
         if zsort == z3.IntSort():
             if isinstance(v, (bool, int)):
                 return z3.IntVal(int(v))
